@@ -22,6 +22,8 @@ func (mux *ServeMux) ServeHTTP(w http.ResponseWriter, r *http.Request) {
 	} else if r.Header.Get("Accept") == "application/nostr+json" {
 		mux.logInfo(r.Context(), "got nip11 access")
 		if mux.NIP11 == nil {
+			w.Header().Add("Content-Type", "application/nostr+json")
+			w.Header().Add("Access-Control-Allow-Origin", "*")
 			io.WriteString(w, "{}")
 		} else {
 			mux.NIP11.ServeHTTP(w, r)
